@@ -91,7 +91,7 @@ PROPS = {
     "C01": dict(
         modules=[P + "C01", P + "C02"],
         theorems=[P + "C01." + t for t in ("capacity", "mutual_exclusion", "capacity_sharded", "waiter_implies_full")]
-                 + ["Ldlm.Core.run_lockInv", "Ldlm.Core.shardedOps_lawful", "Ldlm.Core.flatOps_lawful", "Ldlm.Table.run_inv", "Ldlm.Table.gc_safe", "Ldlm.Props.C02.conservation"],
+                 + ["Ldlm.Core.run_lockInv", "Ldlm.Core.shardedOps_lawful", "Ldlm.Core.flatOps_lawful", "Ldlm.Table.run_inv", "Ldlm.Table.gc_safe", "Ldlm.Props.C02.conservation", "Ldlm.Props.C02.capacity_threads"],
         streams=[SEQ, CONC],
         level_text="Sequential half: for EVERY operation sequence (grants, unlocks, renews, lease expiries, wait time-outs, session ends, GC passes, restarts, admin unlocks) and every lawful lock-table representation (sharded with any hash/shard count) the model never holds more keys than the size: proved by induction over operations, no bound. Tied to the code by seqdiff (lock-table channel) and a direct monitor on the implementation's table. Interleaved half (M1, one action per critical section of lock.go/manager.go, any number of threads, GC steps anywhere): in every state of every schedule units taken = keys + grants in progress <= size, so acknowledged live holds never exceed the size. Tied by controlled-interleaving exploration of the instrumented real code with capacity monitors (acknowledged holders, table keys, free-unit probes).",
         level_note="The server layer above the table (session end, lease callback as concurrent threads) is covered for capacity by the conc stream only; its interleaved model M3 is work in progress. D8 (GC race: two holders of a size-1 lock) was found by this check and repaired (fix: 8781713). Trusted: Lean kernel, hand-written M1/M2, x/sync semaphore modelled, synctest, instrumented-build exploration.",
@@ -100,7 +100,7 @@ PROPS = {
     ),
     "C02": dict(
         modules=[P + "C02"],
-        theorems=[P + "C02." + t for t in ("refines_atomic_lock", "fresh_object_inv", "conservation", "try_refused_only_when_full", "unlock_at_most_once", "unlock_exactly_once", "linearizable_real_time_partial", "handback_window_runs", "handback_window_refutes_strict", "seq_trylock_atomic", "seq_unlock_atomic", "seq_reachable_recInv")]
+        theorems=[P + "C02." + t for t in ("refines_atomic_lock", "fresh_object_inv", "conservation", "try_refused_only_when_full", "unlock_at_most_once", "unlock_exactly_once", "linearizable_real_time_partial", "handback_window_runs", "handback_window_refutes_strict", "lin_after_invocation", "no_lin_after_return", "seq_trylock_atomic", "seq_unlock_atomic", "seq_reachable_recInv")]
                  + ["Ldlm.Table.sim_obj", "Ldlm.Table.refines_obj", "Ldlm.Table.stepObj_inv", "Ldlm.Core.unlock_kills", "Ldlm.Core.Dead.forever"],
         status={P + "C02.linearizable_real_time_partial": "partial: a blocking Lock that gives up after Release has handed it the unit is linearized as grant + release inside its interval (K21)",
                 P + "C02.handback_window_runs": "witness schedule (K21)", P + "C02.handback_window_refutes_strict": "refutation witness (K21): the strict reading - a failed acquisition has no effect at all - is false"},
@@ -113,8 +113,10 @@ PROPS = {
     "C03": dict(
         modules=[P + "C03"],
         theorems=[P + "C03." + t for t in ("no_lost_wakeup", "release_serves_head", "arrivals_at_tail", "cancelled_never_served", "cancel_keeps_invariant",
-                                          "waiter_implies_full_seq", "wait_deadline", "wait_timeout_zero_is_none", "fifo_no_overtaking", "fifo_queue_order")]
-                 + ["Ldlm.Table.run_inv", "Ldlm.Table.no_overtaking", "Ldlm.Table.queue_order"],
+                                          "waiter_implies_full_seq", "wait_deadline", "wait_timeout_zero_is_none", "fifo_no_overtaking", "fifo_queue_order",
+                                          "wait_not_early", "wait_not_early_pending", "wait_not_early_reachable", "wait_prompt", "wait_only_shrinks")]
+                 + ["Ldlm.Table.run_inv", "Ldlm.Table.no_overtaking", "Ldlm.Table.queue_order", "Ldlm.Core.run_pu",
+                    "Ldlm.Core.advanceTo_wait_not_early", "Ldlm.Core.advanceTo_wait_prompt"],
         streams=[CONC, SEQ],
         level_text="For every schedule of any number of threads (M1): a non-empty queue means every unit is taken (no lost wake-up), a release hands the unit to the head of the queue and arrivals join at the tail (FIFO), a waiter that gave up is out of the queue and cannot be served later, and giving up preserves the invariant (does not delay the others). Timed part over M2: the wait deadline is exactly now + w*10^9 iff w > 0, 0/absent = none; the sequential no-lost-wake-up holds in every reachable state. Tied to the code by conc templates (release x waiter arrival x wait time-out x cancel, 1-2 waiters, coinciding instants) and seqdiff with exact virtual return times and a FIFO / early- / late-time-out monitor.",
         level_note="PARTIAL: 'promptly' is exact only in virtual time; real-time promptness and fair scheduling are the Go runtime's (trusted). Shutdown: the manager alone dead-locks with an un-cancellable blocked waiter (observation in DESIGN §2); through cmd/server the network layer cancels waiters first (C11). A theorem that a pending call completes at exactly its deadline under `advance` (wait_timeout_exact) is not yet proved; it is checked by the seq monitor.",
@@ -128,7 +130,7 @@ PROPS = {
                  + ["Ldlm.Core.advanceTo_keeps_later", "Ldlm.Core.advanceTo_prompt", "Ldlm.Props.C12.lease_units_pinned", "Ldlm.Core.expiry_kills", "Ldlm.Core.Dead.step"],
         streams=[SEQ, CONC],
         level_text="After the lease callback of a hold its (name, key) is dead, and a dead pair stays dead for every continuation of the history: never held again, Unlock with it fails (expired_key_dead, dead_key_stays_dead). Over M2 in exact virtual time, for every state satisfying the reachability invariant: a grant with lock timeout t stores a lease with deadline exactly now + t*10^9 (unit pinned to time.Second by a regenerated fact); advancing to any instant before a deadline leaves that lease and its hold in place (no early release); after an advance no lease with a deadline at or before the new time is left (prompt expiry; fuel exhaustion is reported, never silent) and a fired lease's hold is gone; a successful Renew sets the deadline to exactly now + t*10^9 and touches nothing else; Renew without a lease fails; a dead key's Unlock/Renew fail and change nothing. Tied to the code by seqdiff with time steps to deadline-1ns / deadline / deadline+1ns, renew with different T, renew after expiry, and an arithmetic lease monitor on the implementation trace.",
-        level_note="'A hold taken without a lock timeout never expires' is proved as 'no lease is stored' (no_timeout_no_lease) + prompt/early theorems about stored leases; Renew of such a hold fails (renew_requires_lease) - the code's behaviour, stated. lease_not_early_held takes the reachability invariant InvS, which holds after every history including restarts (run_invS). Trusted: Lean kernel, time.AfterFunc/Timer semantics (modelled), synctest clock, hand-written M2.",
+        level_note="Since round 9 the check also runs the conc stream (templates unlock||renew||expiry and expiry||unlock): a hold still present after every lease has run out, or a unit that is not free after Unlock + expiry, is a C04 violation found under a controlled schedule. 'A hold taken without a lock timeout never expires' is proved as 'no lease is stored' (no_timeout_no_lease) + prompt/early theorems about stored leases; Renew of such a hold fails (renew_requires_lease) - the code's behaviour, stated. lease_not_early_held takes the reachability invariant InvS, which holds after every history including restarts (run_invS). Trusted: Lean kernel, time.AfterFunc/Timer semantics (modelled), synctest clock, hand-written M2.",
         technique="Lean 4 proof (induction over the event loop of `advance` under the reachability invariant) + virtual-time sequential differential + arithmetic lease monitor",
         trusted=M2_TRUST,
     ),
@@ -141,7 +143,7 @@ PROPS = {
                 P + "C13.gc_allows_recreation": "witness of the one effect the property allows (re-creation with another size)"},
         streams=[CONC, SEQ, STACK],
         level_text="M1 (every schedule, GC steps anywhere, any idle-clock reading): a GC step that deletes a lock deletes one nobody holds, is acquiring, waits on or has fetched, with a free semaphore; it leaves every other lock untouched; the table invariant holds in every state of every schedule with GC interleaved - so the code's deleted-lock panic and checks are unreachable. M2: a GC pass keeps every record that has a key, changes nothing but the lock table, and a removed record was unheld and idle longer than min-idle (the only effect: re-creation, possibly with another size). SIMULATION (M2, every history, every GC interval and minimum idle time, ticks and explicit passes anywhere): the server and the same server whose collector deletes nothing run in lock step - related states (equal up to records with no key and no waiter) give the same answer, events and tie flag to every operation and stay related, or the request re-creates a collected lock with another size (without GC: size mismatch; with GC: granted), which is exactly the effect C13 allows; hence along every history in which the GC-less server never answers size mismatch the two give the same answers request by request (gc_invisible_history). Strict invisibility is false of the code in one respect (K11: a failing Unlock with a stale key names a different reason after collection) - kernel-checked witness, and the simulation compares error codes up to exactly that difference. Tied by conc templates (GC pass x Lock/TryLock/Unlock, min-idle 0) and a metamorphic seq run (same history with GC off, implementation vs implementation).",
-        level_note="PARTIAL by K11. The reference of the simulation is the same model with a collector that deletes nothing (noGc: same ticks, same clock), the metamorphic stream compares the real server with GC on and off. D8 (GC racing an acquisition: double grant / panic) was found by this check and repaired (fix: 8781713). Trusted: Lean kernel, hand-written M1/M2, instrumented-build exploration.",
+        level_note="Collection intervals of 0 s / 1 ns cannot run in virtual time (the collector would never block); they are exercised on the real binary (stack part, round 8). A lock object that was created and never locked is covered by neverLockedProbe (round 9). PARTIAL by K11. The reference of the simulation is the same model with a collector that deletes nothing (noGc: same ticks, same clock), the metamorphic stream compares the real server with GC on and off. D8 (GC racing an acquisition: double grant / panic) was found by this check and repaired (fix: 8781713). Trusted: Lean kernel, hand-written M1/M2, instrumented-build exploration.",
         technique="Lean 4 proof (GC enabling condition + invariant over all schedules; lock-step simulation GC / no GC over all histories) + controlled interleavings + metamorphic GC-on/GC-off replay",
         trusted=M2_TRUST + CONC_TRUST,
     ),
@@ -165,20 +167,20 @@ PROPS = {
                 P + "C06.late_grant_leaks": "refutation witness (K2)", P + "C06.timer_for_dead_hold": "refutation witness (K2, second window)"},
         streams=[CONC, SEQ, RESTCONC],
         level_text="M3b follows one hold of the ending session through every thread that can touch it (its grant in three steps, any number of Unlock threads, the lease callback, the DestroySession thread), one step per call into a manager, for EVERY schedule: if the hold's grant had been answered when the session entry was deleted (Clean), then once nothing is in flight the hold is out of the table, has no lease-timer entry and no bookkeeping entry - whichever of Unlock / lease callback / session end got there first; after the grant the hold only ever leaves the table (unique releaser). The unrestricted statement is false of the code (K2: a grant in flight at D1 leaks the hold; a grant between AddLock and timer Add leaves an armed timer for a dead hold) - kernel-checked witnesses. DestroySession is pinned to its source text. Sequential server model M2, every reachable state, clearing on: after a session end no hold the session had is in the lock table any more (neither as key nor queued) and every hold of every other session is still booked and held (session_end_exact_reachable). Tied to the code by exploring session end || {TryLock, blocked Lock, Unlock, expiry} of the same session with another session holding, with hold-left / listing / other-session / panic monitors, and by manager-call trace validation: every distinct history of calls into the three managers for each observed hold of the ending session must be a run of M3b with M3b's results (driver linsess).",
-        level_note="PARTIAL by K2 (recorded, not repaired: a repair needs AddLock to refuse ended sessions, an interface change). 'Other sessions untouched' is structural in the model (one hold = one state) and checked on the code by the monitors. With no-clear-on-disconnect DestroySession returns after D1 (M2: Core.destroy). The panic half of D10 (RemoveLock on a deleted entry) was repaired with D2 (fix: e6a606e). gRPC/REST delivery of ConnEnd is exercised by C20/stack streams, not modelled here.",
+        level_note="The REST path of a session end (DELETE, idle expiry -> connection-end hook) is exercised by the restconc stream, which C06 runs since round 7; conc:session-end:hold-left-unlisted (round 9) separates a left hold that no listing shows from the recorded K2. PARTIAL by K2 (recorded, not repaired: a repair needs AddLock to refuse ended sessions, an interface change). 'Other sessions untouched' is structural in the model (one hold = one state) and checked on the code by the monitors. With no-clear-on-disconnect DestroySession returns after D1 (M2: Core.destroy). The panic half of D10 (RemoveLock on a deleted entry) was repaired with D2 (fix: e6a606e). gRPC/REST delivery of ConnEnd is exercised by C20/stack streams, not modelled here.",
         technique="Lean 4 proof (inductive invariant over all schedules, backwards-propagating ghost flag for the excluded window) + controlled-interleaving exploration",
         trusted=CONC_TRUST,
     ),
     "C09": dict(
         modules=[P + "C09", "Ldlm.Pins.C09"],
         theorems=[P + "C09." + t for t in ("step_inv", "reachable_inv", "always_loadable", "table_image_decodes", "empty_image_loads", "acked_consistent_partial",
-                                          "file_matches_bookkeeping", "crash_in_truncate_window", "crash_overcapacity_file")]
+                                          "file_matches_bookkeeping", "crash_in_truncate_window", "crash_overcapacity_file", "session_end_leaves_no_stale_entry")]
                  + ["Ldlm.Pins.C09.pin_StoreWrite"],
         status={P + "C09.acked_consistent_partial": "partial (hypothesis: the kill is not between Truncate(0) and Write)",
                 P + "C09.crash_in_truncate_window": "refutation witness (K3)", P + "C09.crash_overcapacity_file": "refutation witness (K4)"},
         streams=[CONC, SEQ],
         level_text="M7 has one step per file operation of store.Write (pinned to its source text) and per manager call of the server threads; a crash point is ANY reachable state of ANY schedule. Proved: at every crash point the file is a complete table encoding or empty, both of which load (C17 round trip; empty = no state); outside the Truncate/Write window every hold whose grant was answered and which has not left the table is in the file and no hold whose release was answered is; outside a rewrite the file is exactly the bookkeeping. The unrestricted statement is false of the code: K3 (kill between Truncate(0) and Write: empty file, acknowledged holds lost) and K4 (unit released before the bookkeeping entry is removed + re-grant: file lists two holds of a size-1 lock) - kernel-checked witnesses. Tied to the code by crash-image snapshots at every yield point of explored schedules (each distinct image is decoded and checked against the acknowledged sets at that instant) and by sequential histories with restarts where the file must load and equal the acknowledged holds after every operation.",
-        level_note="PARTIAL by K3/K4 (recorded: an atomic-replace rewrite / reordering table and bookkeeping are not minimal repairs). Process-kill model: page cache survives, no power loss / fsync ordering. 'Recovery never has to drop an acknowledged hold' follows outside K4 from C01's restore-by-TryLock. Trusted: Lean kernel, hand-written M7, os.File semantics (modelled), the snapshot hook reading the file at yield points.",
+        level_note="Since round 9 M7 is tied by call/file-operation history validation (driver lincrash): manager calls, every change of the file image between empty and non-empty, and the answers of every explored schedule of the crash templates must be a run of Crash.step; its first run found a model error (Unlock's lease-timer-fired path), corrected with an `expire` step and the ghosts `booked`/`expiring`. PARTIAL by K3/K4 (recorded: an atomic-replace rewrite / reordering table and bookkeeping are not minimal repairs). Process-kill model: page cache survives, no power loss / fsync ordering. 'Recovery never has to drop an acknowledged hold' follows outside K4 from C01's restore-by-TryLock. Trusted: Lean kernel, hand-written M7, os.File semantics (modelled), the snapshot hook reading the file at yield points.",
         technique="Lean 4 proof (inductive invariant over all schedules of file operations and manager calls) + crash-image enumeration on the instrumented code + restart histories",
         trusted=CONC_TRUST + M2_TRUST,
     ),
@@ -215,14 +217,14 @@ PROPS = {
         status={},
         streams=[RESTMODEL, REST, RESTCONC],
         level_text="Sequential semantics (M4): a request with a missing/unknown/ended cookie answers 401 and changes nothing; a valid one is accepted and re-arms the deadline to now+timeout; a session whose deadline lies after the target survives any clock advance unchanged (so requests less than a timeout apart keep it valid for ever); after an advance no session with a deadline <= the clock is left; for EVERY history each cookie gets at most one connection-end, exactly one iff created and no longer valid, none while valid (inductive invariant, cookie freshness assumed injective). Races (M4c): one step per lock acquisition of rest.go/timermap.go (function bodies pinned to the source text by rfl), any number of sessions, requests, DELETEs, timer callbacks, any schedule: 10-clause invariant proved inductive; consequences: 0/1 connection-end per session, exactly 1 once quiet without entry, no request served after connection-end, ValidateSession never dereferences a missing entry, requests after the end are refused, and deadlock freedom (some thread can always step while any is unfinished or a lock is held). Tied to the code by restmodel (M4 vs real gateway, time steps to deadline-1ns/deadline/deadline+1ns), the sequential monitor stream (refusals have no effect, ConnEnd count) and controlled interleavings of request/DELETE/idle-callback on the instrumented gateway (no deadlock, no panic, exactly one ConnEnd, no hold left).",
-        level_note="M4c abstracts what a served request does to the lock server (C15/M4 cover that) and is tied to rest.go by source-text pins + the interleaving monitors, not by a step-by-step trace comparison; a change to the pinned functions breaks the pin and triggers the search streams. 'Release its holds once' = one DestroySession per session (proved here); what DestroySession releases is C06. Trusted: Lean kernel, hand-written M4/M4c, sync.Mutex/RWMutex and time.AfterFunc semantics (modelled), cookie freshness.",
+        level_note="M4c is tied by call-history validation (driver linrest): requests, DELETEs, connection-end deliveries, ticks and final quiescence of every explored schedule must be a run of RestConc.step. M4c abstracts what a served request does to the lock server (C15/M4 cover that) and is tied to rest.go by source-text pins + the interleaving monitors, not by a step-by-step trace comparison; a change to the pinned functions breaks the pin and triggers the search streams. 'Release its holds once' = one DestroySession per session (proved here); what DestroySession releases is C06. Trusted: Lean kernel, hand-written M4/M4c, sync.Mutex/RWMutex and time.AfterFunc semantics (modelled), cookie freshness.",
         technique="Lean 4 proof (inductive invariants over all histories and over all schedules of a lock-step concurrent model; progress theorem) + differential correspondence of the gateway model + controlled-interleaving exploration of the instrumented gateway",
         trusted=M4_TRUST + CONC_TRUST,
     ),
     "C19": dict(
         modules=[P + "C19", "Ldlm.Pins.C19"],
         theorems=[P + "C19." + t for t in ("interval_below_timeout", "interval_too_long", "rules_pinned", "all_rpcs_retried", "keeps_alive", "advance_only_good_renews", "unlock_leaves_others",
-                                          "unlock_removes_renewer", "second_hold_same_name_panics", "retry_at_most", "retry_only_on_unavailable", "retry_result_is_last", "retry_other_error_final",
+                                          "unlock_removes_renewer", "second_hold_same_name_panics", "retry_at_most", "retry_at_most_int", "retry_nonpositive_budget", "retry_only_on_unavailable", "retry_result_is_last", "retry_other_error_final",
                                           "retry_unavailable_within_budget", "retry_unavailable_over_budget", "no_renew_after_return", "no_panic_from_race", "rpc_after_exit", "stop_never_stuck",
                                           "old_stop_misses_busy_renewer")]
                  + ["Ldlm.Client.cadv_alive", "Ldlm.Client.cstep_fine", "Ldlm.ClientConc.step_inv"]
@@ -232,7 +234,7 @@ PROPS = {
 },
         streams=[CLIENTMODEL, CLIENT],
         level_text="M5 = the client's renew map and renew timers over M2. Proved: the renew interval is strictly below every lock timeout above the 10 s minimum (constants and operators regenerated from the source); for EVERY history of TryLock (timeout 0 or above the minimum) / Unlock / clock advance on an auto-renewing client, either the client died of the out-of-sync panic (K19a) or every hold that has a renewer is held at the server with its lease deadline after the next Renew and no renewer failed, and every RPC sent during an advance is a successful Renew (induction over the history and, inside an advance, over the renew instants; uses M2's lease theorems); Unlock removes exactly the renewer of its name and leaves every other name alone; the retry rule for all outcome sequences (at most MaxRetries+1 attempts, retried only on Unavailable, last outcome returned) and every RPC call site is inside rpcWithRetry (regenerated). Races (M5c): Unlock thread, Close thread and renew goroutine of the repaired Stop, one step per channel operation, any schedule: no Renew sent after Unlock/Close returned, no panic, the RPC only after the goroutine exited, Stop never stuck; the Stop before the repair has a kernel-checked failing schedule. Tied to the code by clientmodel (M5 vs the real client, RPC traces in virtual time; retry table; renewer retry path) and by the monitor + controlled-interleaving stream on the instrumented client.",
-        level_note="PARTIAL by K19a: the renew map is keyed by the lock name alone (regenerated fact renewMapKey), so a second auto-renewed hold of one counting lock panics in the caller - recorded, not repaired: keying by (name, key) changes what the repository's own tests store in and expect of the map. The Stop defect (Unlock/Close racing a busy renewer: Renew after Unlock returned, goroutine panic, send on closed channel) was found by the interleaving stream and repaired (fix: commit 9e742fe). Zero RPC latency in M5; real latency is covered only by the race model. Trusted: Lean kernel, hand-written M5/M5c/M2, the differential ties, Go channel/select/sync.Once semantics (modelled).",
+        level_note="M5c is tied by call-history validation (driver linclient) of every explored schedule of the Unlock/Close || renew-goroutine programs; part (d) makes the Unlock RPC itself fail at transport level. PARTIAL by K19a: the renew map is keyed by the lock name alone (regenerated fact renewMapKey), so a second auto-renewed hold of one counting lock panics in the caller - recorded, not repaired: keying by (name, key) changes what the repository's own tests store in and expect of the map. The Stop defect (Unlock/Close racing a busy renewer: Renew after Unlock returned, goroutine panic, send on closed channel) was found by the interleaving stream and repaired (fix: commit 9e742fe). Zero RPC latency in M5; real latency is covered only by the race model. Trusted: Lean kernel, hand-written M5/M5c/M2, the differential ties, Go channel/select/sync.Once semantics (modelled).",
         technique="Lean 4 proof (invariant over all client histories with an inner induction over renew instants; retry rule by list induction; inductive invariant over all schedules of the Stop protocol) + differential correspondence of the client model + controlled-interleaving exploration of the instrumented client",
         trusted=M5_TRUST + M2_TRUST + CONC_TRUST,
     ),
@@ -262,7 +264,8 @@ PROPS = {
     ),
     "C11": dict(
         modules=[P + "C11", "Ldlm.Pins.C11"],
-        theorems=[P + "C11." + t for t in ("order_pinned", "shutdown_keeps_file", "shutdown_waiters_error", "shutdown_then_start_restores", "old_order_loses_holds")]
+        theorems=[P + "C11." + t for t in ("order_pinned", "shutdown_keeps_file", "shutdown_waiters_error", "shutdown_then_start_restores", "old_order_loses_holds",
+                                          "shutdown_nothing_blocked", "shutdown_answers_every_waiter")]
                  + ["Ldlm.Pins.C11.pin_DestroySession"],
         status={P + "C11.old_order_loses_holds": "refutation witness for the original closer order (D11, repaired)"},
         streams=[STACK, CONC],
@@ -291,7 +294,7 @@ PROPS = {
         theorems=[P + "C14." + t for t in ("all_conditions", "codes_roundtrip", "codes_roundtrip'", "codes_distinct", "nil_is_nil", "renew_rewrite_pinned", "error_not_true", "ok_has_no_error")],
         streams=[STACK, SEQ, CLIENT, CONC],
         level_text="Over tables REGENERATED from the source on every run (both switch statements, the client's aliases, the proto enum): each of the six conditions maps to its own code, never Unknown, the code exists on the wire/JSON, and the Go client maps it back to an exported value aliasing the same server error - by kernel evaluation over the complete finite list. 'Error implies not locked/unlocked' and 'success implies no error' are proved for every M2 state and request. Which Go value the server returns per condition is tied by the stack stream (every condition x transport x RPC on the real binaries) and seqdiff.",
-        level_note="D4 (failed Renew arrived as Unknown) was found by this check and repaired (fix: 11de5aa). Trusted: Lean kernel, facts extractor, grpc/grpc-gateway/protojson (exercised by the stack stream), hand-written M2.",
+        level_note="Since round 8 the conc stream checks every call of every schedule of the unlock/expiry templates for 'true together with an error' (the window is not reachable sequentially). D4 (failed Renew arrived as Unknown) was found by this check and repaired (fix: 11de5aa). Trusted: Lean kernel, facts extractor, grpc/grpc-gateway/protojson (exercised by the stack stream), hand-written M2.",
         technique="Lean 4 decide over regenerated tables + M2 case analysis + end-to-end code matrix on the real stack",
         trusted=M2_TRUST + STACK_TRUST,
     ),
